@@ -81,6 +81,14 @@ func init() {
 		Batches: [2]int{1, 10}, PerBatch: [2]int{64, 64}, Cases: [2]int{200, 600},
 		Rule:        "cases = (schema with path variables and query-annotated fields of every URL kind on every verb, incl. repeated query fields) x RPC x raw HTTP request: URL values per kind drawn from {clearly valid canonical forms, clearly invalid (non-numeric, fractional, out of range, empty), grey (only judged for no-5xx)}, canonical or fully percent-encoded segments, missing/present query parameters x body in {absent, zero-length, {}, object/wire message carrying only the non-URL fields} x content type {JSON, binary}. Oracle = reference binder B: handler-visible request == body fields + URL values, or 400 whose violations name an offending field and no dispatch. Non-trivial = body verb with a body carrying other fields, or >= 1 offending URL value / missing required parameter; distinct by (request line, body).",
 		Assumptions: append([]string{"grey URL spellings (+5, 0x10, T, inf, leading spaces) are generated but only checked for no panic / no 5xx", "repeated occurrences of a singular query parameter are not generated (first/last-wins is undocumented)"}, commonAssumptions...)})
+	registerRuntime(&runtimeCheck{ID: "C09", Profile: schema.ProfileHeaders, Inner: []string{"c09"}, Prefix: "h", Variant: "server",
+		Batches: [2]int{1, 10}, PerBatch: [2]int{64, 64}, Cases: [2]int{250, 800},
+		Rule:        "cases = (schema with service- and method-level header declarations: required/optional x type {string,integer,number,boolean,array,unset} x format {uuid,email,date-time,date,time,unset}, overriding) x RPC x header value set (absent, empty, must-accept, must-reject per type/format incl. non-UTF-8, grey) x body valid / undecodable. Oracle = reference header validator H with documented merge semantics: dispatch iff every required header is in its must-accept set, else 400 with exactly one violation per offending header even when the body is undecodable; grey values only judged for no-5xx. Non-trivial = a required header with a format or non-string type, an override, or >= 2 offending headers; distinct by (request line, header set).",
+		Assumptions: append([]string{"must-accept / must-reject sets come from RFC 4122, RFC 3339 and sebuf's documentation (time = HH:MM:SS); everything else is grey", "service/method declarations whose names differ only in case are skipped (override semantics undocumented)"}, commonAssumptions...)})
+	registerRuntime(&runtimeCheck{ID: "C10", Profile: schema.ProfileErrors, Inner: []string{"c10"}, Prefix: "e",
+		Batches: [2]int{1, 10}, PerBatch: [2]int{48, 64}, Cases: [2]int{250, 800},
+		Rule:        "cases = (schema with buf.validate rules on top-level, nested, repeated and map-value fields, required headers, custom *Error messages) x RPC x error source {header violation, rule violation, plain error, sebuf Error, wrapped sebuf Error, handler-returned ValidationError, custom *Error message (+wrapped)} x content type {JSON, binary} x error hook {none, returns nil, returns message, sets status, sets header, writes body, combinations}; the call goes through the generated Go client. Oracle = documented error contract E: status, hook header, body decoded in the request's content type (message equality / violation field names = dotted proto paths or header names computed by the reference validator), and client error type (errors.As ValidationError / Error, or an error carrying status or body). Non-trivial = a hook is installed, binary content type, or a nested violation path; distinct by (case, wire body).",
+		Assumptions: append([]string{"rule violations come from the stand-in validator (standard-rule subset); subscripts in field paths are ignored when comparing"}, commonAssumptions...)})
 	registerRuntime(&runtimeCheck{ID: "C01", Profile: schema.ProfileTransport, Inner: []string{"c01"}, Prefix: "t",
 		Batches: [2]int{1, 10}, PerBatch: [2]int{64, 64}, Cases: [2]int{150, 500},
 		Rule:        "cases = (schema from the transport profile: verbs, base paths, 0-3 path variables of every URL kind, query parameters, body fields of every kind/cardinality, JSON-mapping annotations) x RPC x (request value incl. reserved URL characters, non-ASCII, numeric extremes; response value) x content type {application/json, application/x-protobuf, application/octet-stream} set per client or per call x base URL with/without trailing slash. The generated Go client calls the generated Go server through an in-memory transport. Oracle: exactly one handler call of the same RPC, norm(sent)==seen, norm(returned)==received (norm only for JSON). Non-trivial = URL-bound value with reserved/non-ASCII characters or >= 9 digits, or a non-JSON content type, or an annotated body; distinct by (RPC, content type, request, response).",
